@@ -64,7 +64,9 @@ class Op:
     def text(self):
         t = "+".join(TNAME[x] for x in self.types)
         if self.kind == "create":
-            return f"create_child(parent=c{self.ctx})"
+            return f"create_child(parent=c{self.ctx})" + (" [constructed now, entered after the next operation]" if self.variant == "deferred" else "")
+        if self.kind == "visit":
+            return f"in c{self.ctx}'s task: enter and leave a Context(explicit parent=c0)"
         if self.kind == "add":
             return f"c{self.ctx}.add_resource({t},{self.name!r},{self.variant})"
         if self.kind == "fac":
@@ -86,12 +88,16 @@ class Alphabet:
     look: list = field(default_factory=list)  # [(type, name, api)]
     leave: bool = False
     drop: bool = False
+    visit: bool = False
+    deferred: bool = False
 
     def options(self, n_ctx: int, live: list) -> list:
         out = []
         if n_ctx < self.max_ctx:
             for p in live:
                 out.append(Op("create", p))
+                if self.deferred:
+                    out.append(Op("create", p, variant="deferred"))
         for c in live:
             for types, name, variant in self.add:
                 out.append(Op("add", c, types, name, variant))
@@ -101,6 +107,8 @@ class Alphabet:
                 out.append(Op("look", c, (t,), name, api=api))
             if self.drop:
                 out.append(Op("drop", c))
+            if self.visit:
+                out.append(Op("visit", c))
         if self.leave and len(live) > 1:
             out.append(Op("leave", live[-1]))
         return out
@@ -111,12 +119,19 @@ def decode(a, alphabet: Alphabet, K: int) -> list:
     ops = []
     n_ctx = 1
     live = [0]
+    pending = None  # index of a constructed-but-not-yet-entered context
     for i in range(K):
-        opts = alphabet.options(n_ctx, live)
+        opts = alphabet.options(n_ctx, live) if pending is None else [o for o in alphabet.options(n_ctx, live) if o.kind != "create"]
         op = opts[pick(a[f"o{i}"], len(opts))]
         ops.append(op)
+        if pending is not None:
+            live.append(pending)
+            pending = None
         if op.kind == "create":
-            live.append(n_ctx)
+            if op.variant == "deferred":
+                pending = n_ctx
+            else:
+                live.append(n_ctx)
             n_ctx += 1
         elif op.kind == "leave":
             live.remove(op.ctx)
@@ -156,6 +171,7 @@ class MCtx:
         self.teardown: list = []  # labels of scheduled teardown callbacks
         self.events: list = []
         self.open = True
+        self.entered = True
         if parent is not None:
             self.res = {k: v for k, v in parent.res.items() if not v.generated}
             self.fac = dict(parent.fac)
@@ -184,9 +200,10 @@ class Box:
 
 
 class Actor:
-    def __init__(self, idx, parent_ctx, listen):
+    def __init__(self, idx, parent_ctx, listen, pre_ctx=None):
         self.idx = idx
         self.parent_ctx = parent_ctx
+        self.pre_ctx = pre_ctx
         self.listen = listen
         self.queue = []
         self.wake = anyio.Event()
@@ -218,7 +235,10 @@ class Actor:
 
     async def run(self, tg, *, task_status):
         try:
-            ctx = Context(self.parent_ctx) if self.parent_ctx is not None else Context()
+            if self.pre_ctx is not None:
+                ctx = self.pre_ctx
+            else:
+                ctx = Context(self.parent_ctx) if self.parent_ctx is not None else Context()
             async with ctx:
                 self.ctx = ctx
                 if self.listen == "extra":
@@ -330,6 +350,7 @@ class Engine:
         self.compared = 0
         self.closed_order = []
         self.last_failed = False
+        self.pending_enter = None
 
     # -- real-side helpers
     def new_val(self, label):
@@ -395,7 +416,7 @@ class Engine:
     async def compare_views(self, op: Op, step):
         """Compare every live context's static view with the model after `op`."""
         for m in self.model:
-            if not m.open:
+            if not m.open or not m.entered:
                 continue
             real = await self.view(self.actors[m.idx])
             exp = {k: r.value for k, r in m.res.items()}
@@ -437,7 +458,7 @@ class Engine:
         if not self.check_events:
             return
         for m in self.model:
-            if not m.open:
+            if not m.open or not m.entered:
                 continue
             actor = self.actors[m.idx]
             fresh = actor.events[getattr(actor, "payload_checked", 0):]
@@ -458,6 +479,8 @@ class Engine:
         if not self.check_events:
             return
         for m in self.model:
+            if not m.entered:
+                continue
             real = [
                 (tuple(e.resource_types), e.resource_name, e.resource_description, e.is_factory, self.ctx_index(e.source), e.topic)
                 for e in self.actors[m.idx].events
@@ -473,13 +496,41 @@ class Engine:
     # -- operations
     async def op_create(self, op, tg):
         parent = self.model[op.ctx]
-        m = MCtx(len(self.model), parent)
+        m = MCtx(len(self.model), parent)  # the model takes the snapshot NOW, at creation
         self.model.append(m)
+        if op.variant == "deferred":
+            pre = Context(self.actors[op.ctx].ctx)  # constructed now ...
+            actor = Actor(m.idx, self.actors[op.ctx].ctx, self.listen, pre_ctx=pre)
+            self.actors.append(actor)
+            m.entered = False
+            self.pending_enter = (actor, m, op)  # ... entered after the next operation
+            return
         actor = Actor(m.idx, self.actors[op.ctx].ctx, self.listen)
         self.actors.append(actor)
         await tg.start(actor.run, tg)
         if actor.ctx.parent is not self.actors[op.ctx].ctx:
             diverge({"C02", "C12"}, "child-parent-link", "")
+
+    async def enter_pending(self, tg):
+        if self.pending_enter is None:
+            return
+        actor, m, op = self.pending_enter
+        self.pending_enter = None
+        await tg.start(actor.run, tg)
+        m.entered = True
+        if actor.ctx.parent is not self.actors[op.ctx].ctx:
+            diverge({"C02", "C12"}, "child-parent-link", "")
+
+    async def op_visit(self, op):
+        root_ctx = self.actors[0].ctx
+
+        async def go(ctx):
+            async with Context(root_ctx) as tmp:
+                tmp.add_resource(object(), "visitor_only", [T0]) if False else None
+
+        box = await self.actors[op.ctx].call(go)
+        if box.exc is not None:
+            diverge({"C02", "C12"}, f"visit-raised:{type(box.exc).__name__}", repr(box.exc))
 
     async def op_add(self, op):
         m = self.model[op.ctx]
@@ -645,8 +696,11 @@ class Engine:
                     self.trace.append(op.text())
                     self.last_failed = False
                     try:
+                        had_pending = self.pending_enter is not None
                         if op.kind == "create":
                             await self.op_create(op, tg)
+                        elif op.kind == "visit":
+                            await self.op_visit(op)
                         elif op.kind == "add":
                             await self.op_add(op)
                         elif op.kind == "fac":
@@ -657,6 +711,8 @@ class Engine:
                             await self.op_drop(op)
                         else:
                             await self.op_leave(op)
+                        if had_pending:
+                            await self.enter_pending(tg)
                         await self.compare_views(op, step)
                     except Stop as first:
                         # the events of this very step are still judged (a defect of another
@@ -674,6 +730,7 @@ class Engine:
                         await anyio.wait_all_tasks_blocked()
                         await self.check_event_payloads(op, step)
                         self.compare_events(op, step)
+                await self.enter_pending(tg)
                 if self.final_probes:
                     step = len(self.ops)
                     for m in list(self.model):
